@@ -722,6 +722,20 @@ JCopyState(e, st) ==
   IN  IF Has(e.out, "st") /\ StJsonClean(e.out.st) /\ ExactEq(want.st, StOfJson(e.out.st)) /\ e.out.st.hdr = want.hdr
       THEN Ok(s2) ELSE Fail("CopyState", s2)
 
+\* a State object changed in place through its public containers (a fact added to / removed from
+\* state_predicates, set_value on a fluent): by contract the handle denotes the edited value from
+\* then on - later applicability answers and successors are judged against it
+JEditState(e, st) ==
+  LET old == st[e.s].st
+      fact == <<e.fact[1], e.fact[2]>>
+      want == [facts |-> (IF e.how = "add" THEN old.facts \cup {fact} ELSE IF e.how = "remove" THEN old.facts \ {fact} ELSE old.facts),
+               fl |-> (IF e.how = "set" THEN [g \in DOMAIN old.fl |-> IF g = <<e.f, e.a>> THEN <<e.v[1], e.v[2]>> ELSE old.fl[g]] ELSE old.fl)]
+      got == StOfJson(e.out.st)
+      s2 == Put(st, e.s, [kind |-> "state", st |-> got, hdr |-> st[e.s].hdr])
+  IN  IF ~Has(e.out, "st") THEN Fail("EditState:exception", st)
+      ELSE IF StJsonClean(e.out.st) /\ StEq(want, got) /\ e.out.st.hdr = st[e.s].hdr THEN Ok(s2)
+      ELSE Fail("EditState:content", s2)
+
 JStateEq(e, st) ==
   IF Has(e.out, "val") /\ e.out.val = StEq(st[e.a].st, st[e.b].st) THEN Ok(st) ELSE Fail("StateEq", st)
 
@@ -786,6 +800,7 @@ Judge(e, st) ==
     [] e.c = "ExportProblem" -> JExportProblem(e, st)
     [] e.c = "CopyState"    -> JCopyState(e, st)
     [] e.c = "StateEq"      -> JStateEq(e, st)
+    [] e.c = "EditState"    -> JEditState(e, st)
     [] e.c = "NewOperator"  -> JNewOperator(e, st)
     [] e.c = "ApplyOp"      -> JApply(OpEvent(e, st), st)
     [] e.c = "IsApplicableOp" -> JIsApplicable(OpEvent(e, st), st)
